@@ -290,7 +290,8 @@ chk(
     "a debouncer must not appear in its batches; debounce timing judged from the call stamp of handle_event() (sound lower bound); "
     "the debouncer parked inside threading.Condition.wait on the timeout path while an event arrives; callbacks that feed an event "
     "back into / stop their own debouncer; synthetic events among the triggering events; the shell-command trick served by two "
-    "event sources at once.",
+    "event sources at once; stop() landing before the debouncer's very first wait with no event at all (hold at every line on the way "
+    "there); the process watcher held on its way into poll() across an event-triggered restart (one event = one restart).",
     "Processes are simulated (fake Popen, kill_process, fast clock behind tricks.subprocess/kill_process/time); real signals are not "
     "exercised (the upstream tests that do are skipped here for lack of PyYAML). Three genuine defects of AutoRestartTrick are recorded "
     "as known findings (F11, F21 and its consequence) and matched by mechanism.",
